@@ -15,6 +15,11 @@ func init() {
 	replayers["c07.damage"] = func(c *Ctx, m map[string]any) map[string]any {
 		return c07Case(unhx(m["text"].(string)), unhx(m["damaged"].(string)), toInt(m["first"]), toInt(m["last"]), toInt(m["k"]), m["kind"].(string))
 	}
+	replayers["c07.tight"] = func(c *Ctx, m map[string]any) map[string]any {
+		f := c07Case(unhx(m["text"].(string)), unhx(m["damaged"].(string)), toInt(m["first"]), toInt(m["last"]), toInt(m["k"]), m["kind"].(string))
+		f["col1"] = toInt(m["col1"])
+		return f
+	}
 }
 
 func toInt(v any) int { f, _ := v.(float64); return int(f) }
@@ -243,5 +248,43 @@ func genC07(c *Ctx) {
 		c.Count("entry." + e.Kind)
 		nl := append(append(append([]string{}, lines[:e.FirstLine]...), dl...), lines[e.LastLine+1:]...)
 		c.Emit("c07.damage", c07Case(g.Text, strings.Join(nl, "\n"), e.FirstLine, e.LastLine, len(dl), kind))
+	}
+	// Journals WITHOUT blank lines between entries (stacked P / account / commodity lines,
+	// transactions directly below one another): a line that starts in column 1 starts a new
+	// entry whatever stands above it, so everything after the damaged entry must survive any
+	// damage; what stands before it is judged while the damaged entry still starts in column 1.
+	tightDeny := map[string]bool{}
+	for k, v := range plainDeny {
+		tightDeny[k] = v
+	}
+	delete(tightDeny, "tight")
+	for i := 0; i < c.N(1500, 60000); i++ {
+		g := genJournal(c.R, GOpts{MaxEntries: c.N(6, 10), Deny: tightDeny, Force: map[string]bool{"tight": true}})
+		lines := strings.Split(g.Text, "\n")
+		ei := c.R.IntN(len(g.Entries))
+		if c.R.IntN(2) == 0 {
+			// prefer single-line directives: their damaged amount / name is the last thing on the line
+			var ds []int
+			for k, e := range g.Entries {
+				if e.FirstLine == e.LastLine {
+					ds = append(ds, k)
+				}
+			}
+			if len(ds) > 0 {
+				ei = ds[c.R.IntN(len(ds))]
+			}
+		}
+		e := g.Entries[ei]
+		dl, kind := damage(c, lines[e.FirstLine:e.LastLine+1])
+		c.Count("tight.damage." + kind)
+		c.Count("tight.entry." + e.Kind)
+		nl := append(append(append([]string{}, lines[:e.FirstLine]...), dl...), lines[e.LastLine+1:]...)
+		f := c07Case(g.Text, strings.Join(nl, "\n"), e.FirstLine, e.LastLine, len(dl), kind)
+		col1 := 0
+		if len(dl) > 0 && len(dl[0]) > 0 && dl[0][0] != ' ' && dl[0][0] != '\t' && dl[0][0] != '\r' {
+			col1 = 1
+		}
+		f["col1"] = col1
+		c.Emit("c07.tight", f)
 	}
 }
